@@ -63,7 +63,8 @@ class _Udp:
         CUR['ep'].udp[self.addr] = self
 
     def recvfrom(self, n):
-        return self.rx.popleft()
+        data, addr = self.rx.popleft()
+        return data[:n], addr            # a datagram socket truncates to the buffer size
 
     def sendto(self, data, addr):
         ep = CUR['ep']
@@ -121,7 +122,7 @@ class _XfrmSock:
         self.rx = collections.deque()
 
     def recv(self, n):
-        return self.rx.popleft()
+        return self.rx.popleft()[:n]
 
     def close(self):
         pass
